@@ -61,6 +61,7 @@ type Config struct {
 	NoRecorders bool
 	// MutateScenario edits the drawn scenario before the world is built (used by C08 to run a
 	// sibling world that differs only in its environment right before a sampled world)
+	RedactionFlips bool // an environment change may switch the URN redaction policy on (C19f)
 	MutateScenario func(sc *gen.Scenario)
 	// IsKnown says whether a violation is a recorded open finding: those are counted and the
 	// run goes on (so that a known defect does not hide what lies behind it)
@@ -457,7 +458,10 @@ func (w *World) planInitialTasks() {
 			w.push(&Task{Kind: tAdmin, At: w.Now.Add(time.Duration(t.Pick("admindelay_m", 60*24*3)) * time.Minute)})
 		}
 	}
-	if w.On.Stale && t.Chance("envchange", 1, 2) {
+	if w.Cfg.RedactionFlips {
+		// the workspace is anonymised while the first conversations are still going on
+		w.push(&Task{Kind: tEnvChange, At: w.Now.Add(time.Duration(1+t.Pick("flipdelay_m", 60*5)) * time.Minute)})
+	} else if w.On.Stale && t.Chance("envchange", 1, 2) {
 		w.push(&Task{Kind: tEnvChange, At: w.Now.Add(time.Duration(t.Pick("envdelay_m", 60*24*3)) * time.Minute)})
 	}
 }
@@ -598,7 +602,9 @@ func (w *World) personaText(qrs []string) string {
 	switch t.Weighted("textkind", 5, 4, 3, 2, 1, 1, 1, 1, 1, 1, 1, 3) {
 	case 0:
 		if len(vocab) > 0 {
-			return vocab[t.Pick("vocab", len(vocab))]
+			word := vocab[t.Pick("vocab", len(vocab))]
+			// the same word inside different sentences: equal matches from different operands
+			return fmt.Sprintf([]string{"%s", "%s", "oh %s", "%s please", "well, %s I think"}[t.Pick("wrap", 5)], word)
 		}
 		return "yes"
 	case 1:
